@@ -193,7 +193,11 @@ class OPEnv(RL4COEnvBase):
         ).all(), "Duplicates"
 
         # Gather locations in order of tour and get the length of tours
-        locs_ordered = gather_by_index(td["locs"], actions)
+        # the tour starts and ends at the depot, also when the actions do not end with it
+        locs_ordered = torch.cat(
+            [td["locs"][..., 0:1, :], gather_by_index(td["locs"], actions, squeeze=False)],
+            dim=1,
+        )
         length = get_tour_length(locs_ordered)
 
         max_length = td["max_length"]
